@@ -253,6 +253,49 @@ def replay(pid, case):
     return [(k, b["what"]) for k, b in camp.buckets.items()]
 
 
+def fuzz(camp, pid, seconds, seed):
+    """coverage-guided campaign on the tokenizer with this property's oracle inside the target (thorough tier)"""
+    import os
+    import subprocess
+    import sys
+    from .. import adapters
+    deps = os.path.join(core.VERIF, ".deps")
+    if not os.path.isdir(os.path.join(deps, "atheris")):
+        camp.extra["libfuzzer"] = "skipped: atheris is not installed in /verif/.deps"
+        return
+    stats = {}
+    for corpus in ("seeded", "empty"):
+        with adapters.scratch() as dname:
+            cdir = os.path.join(dname, "corpus")
+            adir = os.path.join(dname, "artifacts")
+            os.makedirs(cdir)
+            os.makedirs(adir)
+            if corpus == "seeded":
+                for n, t in enumerate(["int\ta = 0x1f;\n", "/* c\\\n\td */ x\n", "\"s\\n\" 'c' ??= <: %>\n", "a\t\tb // c\n"]):
+                    open(os.path.join(cdir, "s%d" % n), "w").write(t)
+            env = dict(os.environ)
+            env["PYTHONPATH"] = os.pathsep.join([core.REPO, core.VERIF, deps])
+            env["NV_FUZZ_ORACLE"] = pid
+            cmd = [sys.executable, "-B", os.path.join(core.VERIF, "fuzz", "target.py"), "lexer", cdir, "-max_total_time=%d" % seconds, "-seed=%d" % (seed or 1),
+                   "-max_len=120", "-timeout=30", "-dict=" + os.path.join(core.VERIF, "fuzz", "c.dict"), "-artifact_prefix=" + adir + "/", "-print_final_stats=1"]
+            try:
+                p = subprocess.run(cmd, capture_output=True, env=env, timeout=seconds + 120)
+                tail = p.stderr.decode("utf-8", "replace")
+            except subprocess.TimeoutExpired:
+                tail = "TIMEOUT"
+            execs = [l for l in tail.split("\n") if "stat::number_of_executed_units" in l]
+            stats[corpus] = execs[0].split(":")[-1].strip() if execs else tail[-200:]
+            for fn in sorted(os.listdir(adir)):
+                data = open(os.path.join(adir, fn), "rb").read()
+                try:
+                    text = data.decode("utf-8")
+                except UnicodeDecodeError:
+                    text = data.decode("latin-1")
+                camp.count("fuzz-artifacts-replayed")
+                check_one(camp, pid, text, origin="libfuzzer")
+    camp.extra["libfuzzer_executions"] = stats
+
+
 def selftest(pid):
     """The oracle must accept a faithful token list and reject a damaged one (independent of /repo)."""
     class T:
@@ -299,6 +342,8 @@ def run(pid, tier, seed):
     for name, rc in core.regress_cases(pid):
         check_one(camp, pid, rc["case"]["text"], rc["case"].get("name", "x.c"), "regress:" + name)
     camp.merge(core.run_shards(_dispatch, [dict(fn=f, kw=kw) for f, kw in jobs]))
+    if tier == "thorough":
+        fuzz(camp, pid, 90, seed)
     camp.extra["exhaustive_subdomains"] = sizes
     camp.extra["exhaustive"] = False
     camp.extra["exhaustive_note"] = "the listed sub-domains were enumerated completely; the soup part is sampled"
